@@ -335,8 +335,19 @@ func c07Namespaces(o *E2Out, dir string, in c07Input) {
 	if err := os.WriteFile(fn, []byte(in.yaml()), 0o644); err != nil {
 		return
 	}
+	// a second file that mentions every process for an unrelated reason (an environment variable): namespaces
+	// and replica counts are those of the first file
+	var ov strings.Builder
+	ov.WriteString("version: \"0.5\"\nprocesses:\n")
+	for i := 0; i < in.N; i++ {
+		fmt.Fprintf(&ov, "  %s:\n    environment:\n      - 'OV=1'\n", c07Name(i))
+	}
+	fn2 := filepath.Join(dir, "pc.override.yaml")
+	if err := os.WriteFile(fn2, []byte(ov.String()), 0o644); err != nil {
+		return
+	}
 	o.Evaluations++
-	opts := &loader.LoaderOptions{FileNames: []string{fn}, IsInternalLoader: true}
+	opts := &loader.LoaderOptions{FileNames: []string{fn, fn2}, IsInternalLoader: true}
 	opts.DisableDotenv(true)
 	opts.AddAdmitter(&admitter.NamespaceAdmitter{EnabledNamespaces: []string{"sel"}})
 	var prj *types.Project
